@@ -145,6 +145,22 @@ def generate(rng, tier):
             ops.append({"op": "vslice", "h": h, "i": vi, "a": a, "b": b, "s": st})
             ops.append({"op": "inplace", "h": h, "i": -1, "sym": rng.choice("+-*/"),
                         "rhs": {"kind": "live", "unitrel": "same", "vals": gen_vals(rng, n, "f8"), "num": 2.0, "pick": -2}})
+        elif r < 0.80:
+            # reuse chain: y (other, compatible unit) is an operand, then y's data change through a *view* of y, then y is an
+            # operand again -- whatever the library remembered about y the first time must not be reused
+            u1, u2 = rng.choice([("m", "km"), ("cm", "m"), ("km", "cm"), ("g", "kg"), ("m", "m")])
+            ops.append({"op": "new", "h": h, "kind": "arr", "nc": 1, "unit": u1, "dtype": "f8", "vals": [gen_vals(rng, n, "i8") for _ in range(3)]})
+            ops.append({"op": "new", "h": h, "kind": "arr", "nc": 1, "unit": u2, "dtype": "f8", "vals": [gen_vals(rng, n, "i8") for _ in range(3)]})
+            sym = rng.choice("+-*/")
+            first = {"op": "inplace", "h": h, "i": -2, "sym": sym, "rhs": {"kind": "live", "unitrel": "compatible", "vals": gen_vals(rng, n, "f8"), "num": 2.0, "pick": -1}}
+            ops.append(first)
+            sa, sb = rng.choice([None, 0, 1]), rng.choice([None, n - 1])
+            full = sa in (None, 0) and sb is None
+            ops.append({"op": "slice", "h": h, "i": -1, "a": sa, "b": sb, "s": None})
+            ops.append({"op": "inplace", "h": h, "i": -1, "sym": rng.choice("*+"), "rhs": {"kind": "num" if rng.random() < 0.5 else "arr", "unitrel": "same",
+                                                                                             "vals": gen_vals(rng, n, "f8"), "num": 4.0, "pick": 0}})
+            ops.append({"op": "inplace", "h": h, "i": -3, "sym": rng.choice([sym, "+", "*"]), "rhs": {"kind": "live", "unitrel": "compatible", "vals": gen_vals(rng, n, "f8"),
+                                                                                                       "num": 2.0, "pick": -2 if full else -1}})
         else:
             ops.append({"op": "inplace", "h": h, "i": rng.randrange(64), "sym": rng.choice("+-*/"), "rhs": gen_rhs(rng, n)})
     return {"n": n, "ops": ops}
